@@ -3,6 +3,7 @@
 use simrt::Tape;
 
 use crate::gen::{self, Profile};
+use crate::gen2;
 use crate::plan::*;
 use crate::run::RunResult;
 
@@ -28,6 +29,25 @@ pub fn generate(prop: &str, _run: u64, t: &mut Tape) -> Scenario {
             p.w_zip = 4;
             gen::gen_pipe(t, p)
         }
+        "C05" => {
+            if _run % 4 == 3 {
+                gen2::gen_cwin(t)
+            } else {
+                gen::gen_pipe(t, Profile::pipe())
+            }
+        }
+        "C06" => gen2::gen_timed(t, true),
+        "C12" => gen2::gen_cwin(t),
+        "C13" => gen2::gen_evwin(t),
+        "C14" => gen2::gen_ptwin(t),
+        "C16" => {
+            if t.draw(2) == 0 {
+                gen2::gen_seq(t)
+            } else {
+                gen2::gen_timed(t, false)
+            }
+        }
+        "C17" => gen2::gen_timed(t, false),
         _ => gen::gen_pipe(t, Profile::pipe()),
     }
 }
@@ -35,8 +55,9 @@ pub fn generate(prop: &str, _run: u64, t: &mut Tape) -> Scenario {
 /// (quick, thorough) number of runs
 pub fn runs(prop: &str) -> (u64, u64) {
     match prop {
-        "C04" => (400, 8000),
-        _ => (600, 20000),
+        "C04" => (1500, 30000),
+        "C02" => (1500, 30000),
+        _ => (2500, 50000),
     }
 }
 
